@@ -315,13 +315,20 @@ def _mp_tile_worker(queue, done_event, pio, _kwargs):
     tile_parity_sign = pio.get_default_vertical_parity_sign()
 
     while True:
+        # Sample the shutdown flag *before* polling the queue. The flag is only
+        # raised once every item has been flushed into the queue, so if it was
+        # already up and the queue then turns out to be empty, nothing more can
+        # arrive. Testing it only after the timeout could miss items enqueued
+        # between the timeout and the test.
+        done = done_event.is_set()
+
         try:
             # un-pickling WCS objects always triggers warnings right now
             with warnings.catch_warnings():
                 warnings.simplefilter("ignore")
                 image, desc = queue.get(True, timeout=1)
         except Empty:
-            if done_event.is_set():
+            if done:
                 break
             continue
 
